@@ -104,6 +104,20 @@ func (g *srvGen) variant(r2 *rand.Rand) int {
 		a.cid = append(append([]byte{}, pre...), 1, byte(r2.Intn(256)))
 		b.cid = append(append([]byte{}, pre...), 2)
 	}
+	// a client identifier of exactly four octets that spells an address of the network (the server's own, a reserved one, a pool one)
+	if r2.Intn(3) == 0 {
+		addrs := []uint32{g.cfg.selfIP}
+		for _, st := range g.cfg.statics {
+			addrs = append(addrs, st[1].(uint32))
+		}
+		addrs = append(addrs, g.pool[r2.Intn(len(g.pool))])
+		for _, c := range g.clients {
+			if !c.static {
+				c.cid = u32b(addrs[r2.Intn(len(addrs))])
+				break
+			}
+		}
+	}
 	// a sender whose vendor prefix is in the compiled-in registry (short and long vendor names)
 	if r2.Intn(2) == 0 {
 		reg := registryMACs()
